@@ -12,11 +12,14 @@
        (r[p+1] + a[0] r[p] + a[1] r[p-1] + ...); `ka`, `kb`, the two update loops (the b-loop
        reads the *old* a, `ao = a.copy()`), `a[p] = -ka`, `b[p] = -kb`, and the two error
        covariance updates `(I - ka kb) sigf`, `(I - kb ka) sigb` are as written.
-       `linalg.inv` is the ring's `rinv` (a library kernel; for matrices over Q: Gauss-Jordan).
+       `linalg.inv` is the ring's `rinv` (a library kernel; for matrices over Q: Gauss-Jordan,
+       `mat_ops n`; `mat_ops_with n iv` is the same ring with any other inverse kernel `iv`, e.g.
+       the 2 x 2 adjugate formula `minv2`).  `mperm n s` relabels the channels of a matrix.
    * `crosscov_entry`, `crosscov_vector`, `autocov_vector`, `lags_of`
        nitime/utils.py:2132-2217 (real data: `.conj()` is the identity); `lags_of` is the
        `.transpose(2, 0, 1)` every caller applies (layout [i][j][k] -> [k][i][j]).
-   * `MAR_est_LWR`          autoregressive.py:252-274 (after the fix: nlags = order + 1);
+   * `MAR_est_LWR`          autoregressive.py:252-274 (after the fix: nlags = order + 1;
+     `MAR_est_LWR_in` is the same call with the recursion run over another ring instance);
      `MAR_est_LWR_snapshot`  the same function as it was in the snapshot (nlags = order).
    * `fit_model_fixed`, `fit_model_select`, `fit_model`
        nitime/analysis/granger.py:17-71.  The information criterion is a parameter `crit`
